@@ -141,35 +141,33 @@ def check_file(chunks, independent, extra_calls, eol="\n"):
             except SyntaxError:
                 continue
             off = text[:spans[k - 1][1]].count("\n")
-            n0 = len(report3.feedback) + len(report3.ignored_feedback)
             try:
-                tifa_analysis(report=report3)
+                t_sec = tifa_analysis(report=report3)
             except Exception as e:
                 fails.append(('tifa_raises', 'tifa_analysis raised %s' % type(e).__name__))
                 continue
             chunk_lines = chunk.count("\n") + 1
+
+            def located(analysis):
+                # the issues of this analysis, whichever report their feedback objects registered with
+                return sorted((label, issue.location.line) for label, issues in analysis.issues.items() for issue in issues
+                              if getattr(issue, 'location', None) is not None
+                              and getattr(issue.location, 'line', None) is not None)
+            got = located(t_sec)
             # the same text analysed on its own (no sections, so no shifting) names the lines inside the chunk
             alone = fresh(chunk)
             try:
-                tifa_analysis(report=alone)
-                want = sorted((f.label, f.location.line + off) for f in alone.feedback + alone.ignored_feedback
-                              if type(f).__module__.startswith('pedal.tifa') and getattr(f, 'location', None) is not None
-                              and getattr(f.location, 'line', None) is not None)
-                got = sorted((f.label, f.location.line) for f in (report3.feedback + report3.ignored_feedback)[n0:]
-                             if type(f).__module__.startswith('pedal.tifa') and getattr(f, 'location', None) is not None
-                             and getattr(f.location, 'line', None) is not None)
+                want = [(label, line + off) for label, line in located(tifa_analysis(report=alone))]
                 TIFA_COMPARED[0] += len(want)
                 if got != want:
                     fails.append(('tifa_line', 'TIFA issues of section %d at %r; the chunk analysed alone, shifted by the %d '
                                   'lines before it, gives %r' % (k, got, off, want)))
             except Exception as e:
                 pass
-            for f in (report3.feedback + report3.ignored_feedback)[n0:]:
-                loc = getattr(f, 'location', None)
-                if loc is not None and getattr(loc, 'line', None) is not None and type(f).__module__.startswith('pedal.tifa'):
-                    if not (off + 1 <= loc.line <= off + chunk_lines):
-                        fails.append(('tifa_line', 'TIFA issue %s at line %r, the section spans lines %d-%d' % (
-                            f.label, loc.line, off + 1, off + chunk_lines)))
+            for label, line in got:
+                if not (off + 1 <= line <= off + chunk_lines):
+                    fails.append(('tifa_line', 'TIFA issue %s at line %r, the section spans lines %d-%d' % (
+                        label, line, off + 1, off + chunk_lines)))
     return fails
 
 
